@@ -225,8 +225,8 @@ func (b *builder) form(depth int) {
 		// prefix character then a form
 		p := rapid.SampledFrom([]string{"'", "'", "`"}).Draw(b.rt, "prefix")
 		b.emit(p, '?')
-		// a prefix with nothing after it is not a complete text: mark the position as not judged
-		b.state[len(b.state)-1] = '?'
+		// a prefix with nothing after it stops inside a (quote ...) form: it must be reported as incomplete
+		b.state[len(b.state)-1] = 'i'
 		if p == "`" {
 			b.bq++
 			b.form(depth + 1)
@@ -265,7 +265,7 @@ func (b *builder) form(depth int) {
 	case 22:
 		if b.bq > 0 {
 			b.emit(rapid.SampledFrom([]string{",", ",@"}).Draw(b.rt, "comma"), '?')
-			b.state[len(b.state)-1] = '?'
+			b.state[len(b.state)-1] = 'i'
 			b.bq--
 			if rapid.Bool().Draw(b.rt, "commalist") {
 				b.list(depth, "(")
